@@ -82,7 +82,15 @@ def run(ctx, only_ids=None):
         if ids:
             rig.write_ndjson(ctx.work / "confirm_cases.ndjson", [byid[i] for i in ids])
             co = ctx.work / "confirm_obs.ndjson"
-            ctx.drive("c10", ctx.work / "confirm_cases.ndjson", co, race=True, timeout=3000)
+            racedir3 = ctx.work / "race3"
+            racedir3.mkdir(exist_ok=True)
+            ctx.drive("c10", ctx.work / "confirm_cases.ndjson", co, race=True, timeout=3000,
+                      env={"GORACE": f"log_path={racedir3}/r halt_on_error=0 exitcode=0"})
+            ev3 = rig.read_ndjson(co)
+            for i, rc in enumerate(race_records(racedir3)):
+                ev3.append({"t": 9000000 + i, "ev": "reset", "kind": "race", "runs": 1, "calls": 0, "form": rc["where"]})
+                ev3.append({"t": 9000000 + i, "ev": "result", "run": 1, "same": False, "outcome": "datarace:" + rc["where"], "out": "", "ref": "", "err": ""})
+            rig.write_ndjson(co, ev3)
             b2 = judge(ctx, "trace_confirm", co)
         else:   # failures only in seeded extra batches / race reports: re-run those
             co = ctx.work / "confirm_obs.ndjson"
